@@ -153,6 +153,8 @@ func doDump(c *Ctx, what string) {
 				}
 			})
 		}
+	case "libpanics":
+		dumpLibPanics(c)
 	case "funcs":
 		dumpFuncs(c)
 	case "census":
